@@ -179,7 +179,7 @@ VERIF_TARGET(c29_packages, nullptr, 128, 1500,
         ms.Sync();
         unsigned nbig = 0;
         for (uint32_t k = 0; k < fan->vout.size(); ++k) {
-            { LOCK(ms.pool().cs); if (ms.pool().DynamicMemoryUsage() > 170'000) break; }
+            { LOCK(ms.pool().cs); if (ms.pool().DynamicMemoryUsage() > 192'000) break; }
             TxPlan p;
             p.inputs = {Spendable{COutPoint(fan->GetHash(), k), RefCoin{fan->vout[k].nValue, fan->vout[k].scriptPubKey, ms.TipHeight(), false}, false, std::nullopt}};
             p.fixed_outputs.push_back(Padding(4400));
